@@ -61,8 +61,10 @@ RULE = ("histories of reg / adv / craft / attest / reqmiss / replay / wait over 
         "subjects x own advertise x second advertise by S1/S2/M over hash x name x metadata x waits across the 300 s "
         "limit; E2: chain opened to one peer, extended for another, missing-token requests from permitted / "
         "unpermitted peers with known in {0,1,2,5}; E3: attest messages own / third party / altered / short and "
-        "byte-for-byte replays of every datagram of the happy path) plus Hypothesis-drawn histories up to 30 (quick) "
-        "/ 45 (thorough) actions. Non-trivial = a disclosure or missing-response reached a node holding two live "
+        "byte-for-byte replays of every datagram of the happy path, every crafted disclosure kind from own and fresh "
+        "material) plus Hypothesis-drawn histories up to 30 (quick) / 45 (thorough) actions (free actions mixed with "
+        "registration+advertise pairs that match or deviate in exactly one of hash / name / metadata / key, half of "
+        "them behind a preamble with two registrations for different subjects at one attester). Non-trivial = a disclosure or missing-response reached a node holding two live "
         "registrations for different subject keys, or reached it after a registration for the sender had expired, "
         "or a datagram / already attested disclosure was replayed, or tokens were requested by an unpermitted peer "
         "or with a chain longer than the opened position, or an attestation signed by a third party / altered was "
@@ -565,7 +567,7 @@ class Run:
             meta_v = None if ADV_META[meta] is None else dict(ADV_META[meta])
             self.ov[x].request_attestation_advertisement(self.peer[x][y], HASHES[h], NAMES[nm], "id_metadata", meta_v)
             self.refresh_own(x)
-            m.opened[x][y] = len(m.own[x])
+            m.opened[x][y] = 1 + max(m.own[x].values(), default=-1)   # the whole chain up to the new credential
             self.judge_emissions()
             self.pump()
             self.progress(x, y)
